@@ -11,7 +11,7 @@
 
    TLC evaluates the statement's formulas (layer 2 of SegName.tla) on every record; a failing one is
    reported with the named deviation of layer 1 that explains it, if one does. Conformance of (ok, path)
-   with layer 1 as the code is today (RealDev) is reported as DRIFT only.                              *)
+   with layer 1 (CodeDev: the deviations the cfg switches on) is reported as DRIFT only.                              *)
 EXTENDS SegName
 
 Trace == ndJsonDeserialize("C26_trace.ndjson")
@@ -32,21 +32,23 @@ ObsProj(o, withPath) == [ok |-> o.ok, path |-> IF withPath /\ o.ok THEN o.path E
 ImplProj(fmt, f, dev, withPath) ==
     LET r == DecodeImpl(fmt, f, dev) IN [ok |-> r.ok, path |-> IF withPath /\ r.ok THEN r.path ELSE ""]
 
-\* which named deviation of layer 1 accounts for a failed formula (annotation of the verdict, not the verdict)
+\* which named deviation accounts for a failed formula (annotation of the verdict, not the verdict): the
+\* observation is what the decoder WITH that deviation returns, and the decoder without it gives the right answer
 ExplainRecognized(fmt, f, o, withPath) ==
-    IF /\ ObsProj(o, withPath) = ImplProj(fmt, f, RealDev, withPath)
-       /\ ~DecodeImpl(fmt, f, Dev(FALSE, TRUE)).ok
+    IF \E nr \in BOOLEAN : /\ ObsProj(o, withPath) = ImplProj(fmt, f, Dev(TRUE, nr), withPath)
+                            /\ ~DecodeImpl(fmt, f, Dev(FALSE, nr)).ok
     THEN "UnanchoredSearch"
-    ELSE IF /\ ObsProj(o, withPath) = ImplProj(fmt, f, RealDev, withPath)
-            /\ DecodeImpl(fmt, f, Dev(FALSE, TRUE)).ok /\ ~DecodeImpl(fmt, f, NoDev).ok
+    ELSE IF \E ua \in BOOLEAN : /\ ObsProj(o, withPath) = ImplProj(fmt, f, Dev(ua, TRUE), withPath)
+                                 /\ ~DecodeImpl(fmt, f, Dev(ua, FALSE)).ok
     THEN "NoRangeCheck"
     ELSE "none"
 
 ExplainRoundTrip(fmt, f, p, o, withPath) ==
     IF /\ o.ok
-       /\ ObsProj(o, withPath) = ImplProj(fmt, f, RealDev, withPath)
-       /\ ImplProj(fmt, f, Dev(FALSE, TRUE), withPath) = [ok |-> TRUE, path |-> IF withPath THEN p ELSE ""]
-       /\ ObsProj(o, withPath) # ImplProj(fmt, f, Dev(FALSE, TRUE), withPath)
+       /\ \E nr \in BOOLEAN :
+            /\ ObsProj(o, withPath) = ImplProj(fmt, f, Dev(TRUE, nr), withPath)
+            /\ ImplProj(fmt, f, Dev(FALSE, nr), withPath) = [ok |-> TRUE, path |-> IF withPath THEN p ELSE ""]
+            /\ ObsProj(o, withPath) # ImplProj(fmt, f, Dev(FALSE, nr), withPath)
     THEN "UnanchoredSearch"
     ELSE "none"
 
@@ -71,13 +73,13 @@ CandVerdict(r, ln) ==
 
 Verdicts == l >= 1 => LET r == Trace[l] IN IF r.kind = "enc" THEN EncVerdict(r, l) ELSE CandVerdict(r, l)
 
-\* ---- conformance with layer 1 as the code is today (never a verdict)
+\* ---- conformance with layer 1 = the decoder with the deviations the cfg says the code has (never a verdict)
 Conforms(r) ==
     LET f  == IF r.kind = "enc" THEN r.obs.name ELSE r.file
         sf == Subst(r.fmt, r.p)
     IN /\ (r.kind = "enc" => r.obs.name = r.name /\ r.obs.direct = r.name)
-       /\ ObsProj(r.obs.a, TRUE) = ImplProj(r.fmt, f, RealDev, TRUE)
-       /\ ObsProj(r.obs.b, FALSE) = ImplProj(sf, f, RealDev, FALSE)
+       /\ ObsProj(r.obs.a, TRUE) = ImplProj(r.fmt, f, CodeDev, TRUE)
+       /\ ObsProj(r.obs.b, FALSE) = ImplProj(sf, f, CodeDev, FALSE)
 
 Drift    == l >= 1 => (Conforms(Trace[l]) \/ Emit("DRIFT", [l |-> l]))
 Accepted == TLCGet("stats").distinct = 1 + NB + Len(Trace)
